@@ -173,7 +173,11 @@ class Obj(object):
                 o = s.call(api, path)
             elif api == 'pull':
                 self.nfile += 1
-                o = s.call('pull', path, os.path.join(self.tmp, 'pulled%d' % self.nfile))
+                target = os.path.join(self.tmp, 'pulled%d' % self.nfile)
+                if (empty or not s.device.available) and self.nfile % 2:
+                    target = os.path.join(self.tmp, 'newdir%d' % self.nfile, 'sub', 'pulled')        # a folder that does not exist: the refused call must not create it either
+                    target = (target, target.encode(), __import__('pathlib').Path(target))[self.nfile // 2 % 3]
+                o = s.call('pull', path, target)
             else:
                 o = s.call('push', io.BytesIO(b'abc'), path)
         out = 'ok' if o.kind == 'ret' else ('stop' if o.exc_name in ('StopIteration', 'StopAsyncIteration') else o.exc_name)
@@ -281,7 +285,10 @@ def _walk_seqs(g, mode, seqs, tmp, label):
         finally:
             o.sess.close_loop()
             for f in os.listdir(tmp):
-                os.remove(os.path.join(tmp, f))
+                if os.path.isdir(os.path.join(tmp, f)):
+                    shutil.rmtree(os.path.join(tmp, f), ignore_errors=True)
+                else:
+                    os.remove(os.path.join(tmp, f))
         if len(viol) >= 3:
             break
     return n, viol, set(COVERED)
